@@ -1,1 +1,16 @@
 -- Root of the NsyncVerif library: imports every model, proof and property module.
+import NsyncVerif.Props.C01
+import NsyncVerif.Props.C07
+import NsyncVerif.Props.C07Audit
+import NsyncVerif.Props.C12
+import NsyncVerif.Props.C12Audit
+import NsyncVerif.Props.C18
+import NsyncVerif.Props.C18Audit
+import NsyncVerif.Props.C15Arith
+import NsyncVerif.Props.C16Buffer
+import NsyncVerif.Props.C16BufferAudit
+import NsyncVerif.Model.MuXDriver
+import NsyncVerif.Model.TimeDriver
+import NsyncVerif.Model.EmitDriver
+import NsyncVerif.Model.FutexDriver
+import NsyncVerif.Model.OnceDriver
